@@ -335,7 +335,11 @@ func runShard(c *Check, bin, work, tier string, shard, n int, replay string, bud
 		<-done
 		werr = fmt.Errorf("shard %d exceeded the hard watchdog of %v", shard, hard)
 	}
-	res := shardResult{output: tail(buf.String(), 6000)}
+	lim := 6000
+	if replay != "" {
+		lim = 400000
+	}
+	res := shardResult{output: tail(buf.String(), lim)}
 	b, rerr := os.ReadFile(out)
 	if rerr != nil {
 		res.err = fmt.Errorf("shard %d wrote no report (%v); process: %v", shard, rerr, werr)
